@@ -18,7 +18,8 @@ EXPLANATION = (
     "callback (at most once); (R6) the result-field renaming maps the record's camelCase keys to the documented PascalCase names (constant "
     "evaluation over the record's key set), and the :2 form replaces Output by the JSON value whenever the field is present; (R7) "
     "cancelling a synchronous child-launch task cancels every task/wait of the child, whether or not the pending request is still there; "
-    "(R8) whether the 200 answer of SendTask* depends on a registry of outstanding tokens. Not decided: two-execution interleavings.")
+    "(R8) whether the 200 answer of SendTask* depends on a registry of outstanding tokens. Not decided: two-execution interleavings."
+    ' (C08.R8) every removal of a pending request disarms its timer, so that a retried child execution registered under the same correlation id is not timed out by the cancelled attempt.')
 RULE_TEXT = "obligation = one table entry / dominated site / codec fact / record key; non-trivial = distinct (rule, site)"
 
 RECORD_KEYS = {"executionArn": "ExecutionArn", "input": "Input", "name": "Name", "output": "Output", "startDate": "StartDate",
